@@ -268,11 +268,10 @@ Section Sound.
 
     Lemma absent_is_from_none t : absent_of t = from_none (impl t).
     Proof.
-      induction t using ty_ind'; cbn [C01.absent_of impl_of]; try reflexivity.
+      induction t using ty_ind'; cbn [C01.absent_of impl_of]; try reflexivity;
+        try (unfold from_none; cbn [o_none]; destruct (ci_from_none c); reflexivity).
       - rewrite IHt. reflexivity.
       - rewrite IHt. reflexivity.
-      - unfold from_none. cbn [o_none]. destruct (ci_from_none c); reflexivity.
-      - unfold from_none. cbn [o_none]. destruct (ci_from_none c); reflexivity.
     Qed.
 
     Lemma find_flatten_none (l : list finfo) : forall i0, find_flatten l i0 = None -> forall g, In g l -> fi_flatten g = false.
